@@ -306,11 +306,15 @@ func (c *Connection) Close() error {
 	c.closeOnce.Do(func() {
 		c.cancel()
 		c.SetState(StateDisconnected)
+		// Close the transport connection first: this fails any frame write that is
+		// blocked on the control stream (flow control on a dead or congested link).
+		// Closing the stream while such a write is blocked would leave the writer,
+		// and everything queued behind writeMu, blocked forever.
+		err = c.conn.Close()
 		// Close control stream if set
 		if c.controlStream != nil {
 			c.controlStream.Close()
 		}
-		err = c.conn.Close()
 		close(c.closed)
 		// Do not close frameCh: processFrames exits via c.closed, and
 		// readLoop stops sending after conn.Done() fires. Closing frameCh
